@@ -346,6 +346,53 @@ func runC08(p *core.Prog, r *core.Report, tier string) {
 			}
 			r.Check(ok, "C08.f", fmt.Sprintf("%s|offers-whole-payload#%d", wbase, i+1), p.Pos(sc.Pos()), "node is offered the "+how, "the node is not offered the worker's whole payload: "+d.String())
 		}
+		// every path of the worker on which the semaphore was obtained offers the payload to the node
+		{
+			isOffer := func(in ssa.Instruction) bool {
+				ci, ok := in.(ssa.CallInstruction)
+				if !ok {
+					return false
+				}
+				for _, sc := range submits {
+					if sc.Parent() == W && in == sc.(ssa.Instruction) {
+						return true
+					}
+				}
+				// a call that runs a closure of W containing the submit call (util.Scatter(len, concurrency, func...))
+				for _, a := range ci.Common().Args {
+					if mc, ok := a.(*ssa.MakeClosure); ok {
+						for _, sf := range submitFns {
+							if mc.Fn == ssa.Value(sf) {
+								return true
+							}
+						}
+					}
+				}
+				return false
+			}
+			var failed map[*ssa.BasicBlock]int
+			var fromAcq ssa.Instruction
+			if acq := core.CallsNamed(W, "Acquire"); len(acq) > 0 {
+				if call, ok := acq[0].(*ssa.Call); ok {
+					fromAcq = call
+					failed = guardEdges(ds, W, func(c core.Cond) int {
+						sx := core.ErrNilSucc(c, call)
+						if sx < 0 {
+							return -1
+						}
+						return 1 - sx
+					})
+				}
+			}
+			w := core.PathQuery{Fn: W, From: fromAcq, Target: core.IsReturn, Avoid: isOffer, Edge: func(b *ssa.BasicBlock, succ int) bool {
+				if sx, ok := failed[b]; ok && sx == succ {
+					return false
+				}
+				return true
+			}}.Find()
+			r.Check(w == nil, "C08.f", wbase+"|always-offers", p.Pos(W.Pos()), "every path of the worker (semaphore obtained) calls the node",
+				"the worker can return without offering the payload to its node although the semaphore was obtained (a node is skipped, e.g. once another node has accepted): not every configured node is offered the submission", p.WitnessText(w)...)
+		}
 		// (e) flag iff accepted
 		var store ssa.Instruction
 		for _, ci := range core.CallsNamed(W, "Store") {
@@ -649,11 +696,93 @@ func checkScatter(p *core.Prog, r *core.Report, ds *core.Describer, f *ssa.Funct
 	r.Check(same, "C08.i", base+"|starts-equals-receives", p.Pos(rl.Stmt.Pos()), "as many receives as goroutines (both loops range over the same worker count)", "the collector does not perform as many receives as goroutines were started: "+gl.Describe()+" vs "+rl.Describe())
 	noEarlyExit(p, r, "C08.i", gl, "worker start loop")
 	noEarlyExit(p, r, "C08.i", rl, "collector loop")
+	// the number of workers covers the input: workers = ceil(inputLen / extent), i.e. every leaf of the worker
+	// count is inputLen/extent (+1), the bare quotient only where inputLen % extent == 0
+	{
+		var bound ssa.Value
+		core.EachInstr(f, func(in ssa.Instruction) {
+			b, ok := in.(*ssa.BinOp)
+			if !ok || b.Op != token.LSS || !(gl.Contains(b.Pos()) || !b.Pos().IsValid()) {
+				return
+			}
+			if _, isPhi := b.X.(*ssa.Phi); isPhi || core.InLoop(b) {
+				if bound == nil {
+					bound = b.Y
+				}
+			}
+		})
+		if len(chans) > 0 {
+			bound = chans[0].Size
+		}
+		if bound == nil || len(f.Params) == 0 {
+			r.Undecide("C08.i", base+"|workers-cover-input", p.Pos(f.Pos()), "worker count not found")
+		} else {
+			inputLen := f.Params[0]
+			isQuot := func(v ssa.Value) (ssa.Value, bool) {
+				b, ok := v.(*ssa.BinOp)
+				if !ok || b.Op != token.QUO || b.X != ssa.Value(inputLen) {
+					return nil, false
+				}
+				return b.Y, true
+			}
+			okAll := true
+			why := ""
+			for _, lf := range core.PhiLeaves(bound, gl0(f, bound)) {
+				if ext, ok := isQuot(lf.V); ok {
+					// bare quotient: only where the remainder is zero
+					g := func(c core.Cond) int {
+						if c.Op != "==" && c.Op != "!=" {
+							return -1
+						}
+						for _, side := range [][2]*core.VD{{c.X, c.Y}, {c.Y, c.X}} {
+							rem, ok := side[0].Val.(*ssa.BinOp)
+							if !ok || rem.Op != token.REM || rem.X != ssa.Value(inputLen) || rem.Y != ext {
+								continue
+							}
+							if side[1].Kind != "const" || side[1].Name != "0" {
+								continue
+							}
+							for e := 0; e < 2; e++ {
+								if c.RelOnEdge(e) == "==" {
+									return e
+								}
+							}
+						}
+						return -1
+					}
+					if w := core.UnguardedLeaf(ds, f, nil, lf, g); w != nil {
+						okAll, why = false, "the bare quotient inputLen/extent is used although a remainder may be left"
+					}
+					continue
+				}
+				if b, ok := lf.V.(*ssa.BinOp); ok && b.Op == token.ADD {
+					if _, ok := isQuot(b.X); ok {
+						if c, isC := b.Y.(*ssa.Const); isC && c.Value != nil && c.Value.String() == "1" {
+							continue
+						}
+					}
+				}
+				okAll, why = false, "the worker count can be "+ds.D(lf.V).String()
+			}
+			r.Check(okAll, "C08.i", base+"|workers-cover-input", p.Pos(f.Pos()), "the worker count is ceil(inputLen/extent): every extent of the input is handed to a worker",
+				"the number of workers is not always ceil(inputLen/extent) ("+why+"): trailing entries of the payload are handed to no worker, so they reach no node although the submission reports success")
+		}
+	}
 	for i, mc := range chans {
 		sd := ds.D(mc.Size)
 		okCap := gl.RangeExpr() != nil && strings.Contains(sd.String(), "") && sizeIsLoopBound(p, f, mc, gl)
 		r.Check(okCap, "C08.i", fmt.Sprintf("%s|chan-capacity#%d", base, i+1), p.Pos(mc.Pos()), "channel capacity is the worker count", "channel capacity ("+sd.String()+") is not the number of workers: a worker can block for ever / the deferred close can race a send")
 	}
+}
+
+// gl0: an instruction at which the value is used (for phi-leaf expansion).
+func gl0(f *ssa.Function, v ssa.Value) ssa.Instruction {
+	if v.Referrers() != nil {
+		for _, ref := range *v.Referrers() {
+			return ref
+		}
+	}
+	return f.Blocks[0].Instrs[0]
 }
 
 // sizeIsLoopBound: the channel's size value is the same SSA value the loop ranges over.
